@@ -58,6 +58,7 @@ func (w *World) execIter(op *Op) bool {
 		return true
 	}
 	mutN := 0
+	storeClosed := false
 	for si, b := range op.Val {
 		st := its[int(b>>2)%len(its)]
 		switch b & 3 {
@@ -113,6 +114,36 @@ func (w *World) execIter(op *Op) bool {
 			st.started = true
 			w.ev["iter_close"]++
 		case 3:
+			if h.snap && w.file == nil && !h.closed && !w.isVisiting(h) {
+				// memory-only snapshot: release the snapshot store while its iterators are
+				// in the middle of their walks (each producer holds its own pin and needs no
+				// file).  Only when every iterator of the script has begun its walk or is
+				// over: Next() on an iterator whose walk would start on a closed store is a
+				// caller error.
+				all := true
+				for _, o := range its {
+					if !o.started && !o.done {
+						all = false
+					}
+				}
+				if !all {
+					continue
+				}
+				for i, sh := range w.snaps {
+					if sh == h {
+						w.snaps = append(w.snaps[:i:i], w.snaps[i+1:]...)
+						break
+					}
+				}
+				h.st.Close()
+				h.closed = true
+				storeClosed = true
+				w.ev["snapclose"]++
+				w.ev["iter_store_closed_under_iterator"]++
+				w.ev["released"]++
+				w.released++
+				continue
+			}
 			if h.snap || w.orig.closed {
 				continue
 			}
@@ -162,6 +193,9 @@ func (w *World) execIter(op *Op) bool {
 	}
 	w.waitGoroutines("after closing all iterators")
 	for c, r0 := range refs0 {
+		if storeClosed {
+			break // the handle's collections are closed: they have no version any more
+		}
 		if r := c.VerifRootRefs(); r != r0 && mutN == 0 {
 			w.failf("iter-version-leak", "collection version reference count is %d after all iterators ended, %d before they were created", r, r0)
 		}
